@@ -452,7 +452,19 @@ void LineParser::parse_git_header_name(Patch& patch, int strip)
     if (peek() == '"') {
         name = parse_quoted_string();
     } else {
-        while (!is_eof()) {
+        // The name may itself contain " b/". As both names on the line are the same for anything but a rename or
+        // copy (whose names are given by other lines), prefer the place where both halves name the same file.
+        const std::string rest(m_current, m_end);
+        for (auto pos = rest.find(" b/"); pos != std::string::npos; pos = rest.find(" b/", pos + 1)) {
+            if (rest.compare(0, 2, "a/") == 0 && rest.compare(2, pos - 2, rest, pos + 3, std::string::npos) == 0) {
+                name = rest.substr(0, pos);
+                break;
+            }
+        }
+
+        // Otherwise the first name ends where the second one begins.
+        const bool found_name = !name.empty();
+        while (!found_name && !is_eof()) {
             if (consume_specific(" b/"))
                 break;
             name += consume();
